@@ -252,21 +252,19 @@ func c33(c *engine.Ctx) {
 		n3++
 		cyc := false
 		if fw != nil {
-			flood := engine.EdgesWhere(nx, callBoolExtract(fw, 0, true))
+			isFlood := callBoolExtract(fw, 0, true)
 			var rt *ssa.Call
 			for _, call := range engine.CallsTo(nx, false, "telegram/downloader.isRetryableTimeout") {
 				rt, _ = call.(*ssa.Call)
 			}
-			cut := map[[2]*ssa.BasicBlock]bool{}
-			for e := range flood {
-				cut[e] = true
+			// edges on which "flood wait happened" or "retryable timeout" is known — one
+			// predicate for both, so that an edge of the disjunction kept in a variable
+			// (retry := flood || isRetryableTimeout(…)) counts as well
+			transient := func(k engine.Cmp) bool {
+				return isFlood(k) || (rt != nil && callBool(rt, true)(k))
 			}
-			if rt != nil {
-				for e := range engine.EdgesWhere(nx, callBool(rt, true)) {
-					cut[e] = true
-				}
-			}
-			cyc = len(cut) >= 2 && !(engine.PathQuery{Fn: nx, From: chunkCall, Cut: cut}).Reaches(chunkCall)
+			cut := engine.EdgesWhere(nx, transient)
+			cyc = len(cut) >= 1 && rt != nil && !(engine.PathQuery{Fn: nx, From: chunkCall, Cut: cut}).Reaches(chunkCall)
 		}
 		c.Check(cyc, "C33.R3", "next/retries-only-transient", chunkCall.Pos(), "the request may be repeated only after a flood wait or a retryable timeout")
 	}
